@@ -48,16 +48,33 @@ func (d *dupper) DupAttribute(att *AttributeExpr) *AttributeExpr {
 	if att.Meta != nil {
 		metaDup = att.Meta.Dup()
 	}
+	// Copy the slices so that appending to or updating the slices of the copy
+	// does not affect the original (the elements are references to other
+	// types and examples and are shared).
+	var refsDup, basesDup []DataType
+	if att.References != nil {
+		refsDup = make([]DataType, len(att.References))
+		copy(refsDup, att.References)
+	}
+	if att.Bases != nil {
+		basesDup = make([]DataType, len(att.Bases))
+		copy(basesDup, att.Bases)
+	}
+	var examplesDup []*ExampleExpr
+	if att.UserExamples != nil {
+		examplesDup = make([]*ExampleExpr, len(att.UserExamples))
+		copy(examplesDup, att.UserExamples)
+	}
 	dup := AttributeExpr{
 		Type:         d.DupType(att.Type),
 		Description:  att.Description,
-		References:   att.References,
-		Bases:        att.Bases,
+		References:   refsDup,
+		Bases:        basesDup,
 		Validation:   valDup,
 		Meta:         metaDup,
 		DefaultValue: att.DefaultValue,
 		DSLFunc:      att.DSLFunc,
-		UserExamples: att.UserExamples,
+		UserExamples: examplesDup,
 		finalized:    att.finalized,
 	}
 	d.ats[&dup] = struct{}{}
